@@ -164,6 +164,10 @@ def gen_irq_return(rng):
         for e in [e for e in events if e['kind'] == which]:
             events.append({'tick': e['tick'] + rng.randrange(1, meta['handlers'][which][2] + 3), 'core': 0, 'kind': 'sys', 'name': 'drsrs', 'index': 10, 'value': 7 << 1 | 1,
                            'tag': 'mpu-revoke'})
+    if rng.random() < 0.12:
+        # the integrator restores a checkpoint of the register file in the middle of the run (board event 'regswap': arm.registers replaced by a deep copy)
+        for _ in range(rng.choice([1, 1, 2])):
+            events.append({'tick': rng.randrange(0, max(1, int(n * 1.5))), 'core': 0, 'kind': 'regswap'})
     events.sort(key=lambda e: e['tick'])
     case = {'scenario': 'irq_return', 'cores': [core], 'meta': meta, 'events': events, 'clean_ticks': n,
             'max_ticks': n + (len(events) + 2) * (hl + 8) + 64}
@@ -308,7 +312,7 @@ def run_irq_return(case):
 
 # =================================================================== psr_walk
 
-PSR_OPS = ['msr_reg', 'msr_reg', 'msr_reg', 'msr_imm', 'msr_spsr', 'cps', 'cps', 'setend', 'mrs', 'mrs_spsr', 'set_mode', 'set_ns', 'set_bits', 'ret', 'ret']
+PSR_OPS = ['msr_reg', 'msr_reg', 'msr_reg', 'msr_imm', 'msr_spsr', 'cps', 'cps', 'setend', 'mrs', 'mrs_spsr', 'set_mode', 'set_ns', 'set_bits', 'ret', 'ret', 'regswap']
 
 
 def gen_psr_walk(rng):
@@ -436,6 +440,12 @@ def run_psr_walk(case):
             if sec and cur != 0x1a:
                 r.scr.value = (r.scr.value & ~0x31) | (op['bits'] & 0x31)
                 b.count('fault.scr-rewrite')
+            continue
+        if k == 'regswap':
+            if op['bits'] & 3:
+                continue                       # (a quarter of the draws)
+            b.apply_event({'tick': b.tick, 'core': 0, 'kind': 'regswap'})
+            r = arm.registers
             continue
         if k == 'set_bits':
             r.sctlr.nmfi = op['bits'] & 1
